@@ -136,13 +136,21 @@ struct Gen<'a> {
     r: &'a mut Prng,
     adversarial: bool,
     sent_abs: String,
+    /// the backend sits behind a VFS (`do_import = false`): names that the VFS refuses
+    /// (".", "..", anything with '/') never reach it
+    vfs_filtered: bool,
 }
 
 impl<'a> Gen<'a> {
     fn name(&mut self) -> Vec<u8> {
         let r = &mut *self.r;
         let adv = if self.adversarial { 40 } else { 6 };
-        if r.below(100) < adv {
+        let hostile = r.below(100) < adv;
+        if self.vfs_filtered && hostile {
+            let long = vec![b'x'; 300];
+            let c: Vec<&[u8]> = vec![b"...", b"..a", &long, b"hl"];
+            r.pick(&c).to_vec()
+        } else if hostile {
             let long = vec![b'x'; 300];
             let c: Vec<&[u8]> = vec![b".", b"..", b"a/b", b"/", b"../secret", b"..//", b"a/", b"", b"...", b"..a", b"./a", b"sib/s1", b"/etc/passwd", &long, b"hl"];
             r.pick(&c).to_vec()
@@ -276,14 +284,21 @@ impl<'a> Gen<'a> {
                 if use_h && !cfg.no_open {
                     let (i, h, _) = self.handle(w, false);
                     Op::Getattr { ino: i, handle: Some(h) }
+                } else if use_h {
+                    // zero-message open: fstat(2) on an open file arrives with FUSE_GETATTR_FH and fh 0
+                    Op::Getattr { ino: self.any_ino(w, tainted), handle: Some(Ref::Raw(0)) }
                 } else {
                     Op::Getattr { ino: self.any_ino(w, tainted), handle: None }
                 }
             }
             "setattr" => {
-                let (ino, handle) = if self.r.chance(1, 3) && !cfg.no_open {
+                let use_h = self.r.chance(1, 3);
+                let (ino, handle) = if use_h && !cfg.no_open {
                     let (i, h, _) = self.handle(w, false);
                     (i, Some(h))
+                } else if use_h {
+                    // zero-message open: ftruncate/fchmod/futimens arrive with FATTR_FH and fh 0
+                    (self.any_ino(w, tainted), Some(Ref::Raw(0)))
                 } else {
                     (self.any_ino(w, tainted), None)
                 };
@@ -748,7 +763,7 @@ fn configs(r: &mut Prng, n: usize, standalone: bool) -> Vec<Cfg> {
     // always: the default configuration and the "everything on" one; the rest sampled
     let mut v = vec![
         Cfg { allow_direct_io: true, standalone, cache: 2, xattr: true, ..Default::default() },
-        Cfg { no_open: true, no_opendir: true, inode_file_handles: true, use_host_ino: true, writeback: true, xattr: true, killpriv_v2: true, allow_direct_io: false, standalone, cache: 3 },
+        Cfg { no_open: true, no_opendir: true, inode_file_handles: true, use_host_ino: true, writeback: true, xattr: true, killpriv_v2: true, allow_direct_io: false, standalone, cache: 3, nocap: 0 },
     ];
     let mut seen: BTreeSet<String> = v.iter().map(|c| c.show()).collect();
     while v.len() < n {
@@ -756,6 +771,8 @@ fn configs(r: &mut Prng, n: usize, standalone: bool) -> Vec<Cfg> {
             no_open: r.chance(1, 2), no_opendir: r.chance(1, 2), inode_file_handles: r.chance(1, 2), use_host_ino: r.chance(1, 2),
             writeback: r.chance(1, 2), xattr: r.chance(2, 3), killpriv_v2: r.chance(1, 2), allow_direct_io: r.chance(1, 2), standalone,
             cache: *r.pick(&[0u8, 1, 2, 3, 3]),
+            // now and then the client does not offer everything the configuration asks for
+            nocap: if r.chance(1, 3) { r.below(16) as u8 } else { 0 },
         };
         if seen.insert(c.show()) {
             v.push(c);
@@ -794,7 +811,7 @@ fn main() {
             }
             match parse_case(line) {
                 Some((cfg, spec, ops)) => {
-                    let mut g = Gen { r: &mut dummy, adversarial: false, sent_abs: String::new() };
+                    let mut g = Gen { r: &mut dummy, adversarial: false, sent_abs: String::new(), vfs_filtered: false };
                     let h = run_history(&format!("{}/r{}", base, n), &cfg, &spec, Some(&ops), 0, &mut g, &mut out, &prop);
                     out.case(&h.case_line, &h.impl_line);
                 }
@@ -807,7 +824,18 @@ fn main() {
     let n_cfg: usize = a.get("configs").and_then(|s| s.parse().ok()).unwrap_or(8);
     let n_hist: usize = a.get("histories").and_then(|s| s.parse().ok()).unwrap_or(300);
     let adversarial = prop == "C06";
-    let cfgs = configs(&mut r, n_cfg, true);
+    let mut cfgs = configs(&mut r, n_cfg, true);
+    if !adversarial {
+        // behind a VFS (`do_import = false`): the options handed to `init` are the negotiated
+        // ones and are honoured whatever the configuration says; names are the VFS's business,
+        // so only the benign generator runs here
+        let mut extra = configs(&mut r, std::cmp::max(3, n_cfg / 3) + 2, false);
+        for (k, mut c) in extra.drain(2..).enumerate() {
+            // every negotiated switch is off in at least one of them
+            c.nocap = match k { 0 => 3, 1 => 6, 2 => 9, _ => c.nocap };
+            cfgs.push(c);
+        }
+    }
     let mut n = 0;
     for cfg in &cfgs {
         out.stat(&format!("cfg:{}", cfg.show()));
@@ -818,7 +846,7 @@ fn main() {
             let spec = Spec::random(&mut r, adversarial, &sent_abs);
             let len = r.range(1, 25) as usize;
             out.stat(&format!("len:{}", if len <= 5 { "1-5" } else if len <= 15 { "6-15" } else { "16-25" }));
-            let mut g = Gen { r: &mut r, adversarial, sent_abs };
+            let mut g = Gen { r: &mut r, adversarial, sent_abs, vfs_filtered: !cfg.standalone };
             let h = run_history(&hbase, cfg, &spec, None, len, &mut g, &mut out, &prop);
             out.case(&h.case_line, &h.impl_line);
         }
